@@ -91,6 +91,7 @@ def run(check, prog):
     fortran_double_precision(check, prog)
     fortran_single_precision_quotients(check, prog)
     series_exit(check, prog)
+    psi_product_start(check, prog)
     work_arrays_defined(check, prog)
     status_examined(check, prog)
     cluster_order_cap(check, prog)
@@ -1270,6 +1271,76 @@ def fortran_single_precision_quotients(check, prog):
         check.ok('H9-double-precision', 'mie_f quotients',
                  'no quotient of integer variables and default-real literals in any '
                  'unit reachable from Python', MIE_DIR)
+
+
+def psi_product_start(check, prog):
+    """H13: the Riccati-Bessel function psi_n of the cluster solver is not started
+    by a quotient that has no digits.  `hankel` (backward branch, n > x) builds
+    psi_n as the running product psi_n = psi_(n-1) / (n / x + D_n) from
+    psi_0 = sin x.  The first factor, 1 / x + D_1 = psi_0 / psi_1, is a difference
+    of two O(1) numbers that is ~0 when sin x is rounding noise -- x a multiple of
+    pi: r = 0.5, lambda = 1, n_medium = 1 -- and every psi_n then carries an O(1)
+    relative error (one-sphere cluster against Lorenz-Mie: C_ext 2.46 for 2.73 at
+    x = pi, 3.59 for 7.39 at x = 2 pi; 6e-10 again one part in a million away).
+    chi_n comes from its own recurrence, so the error does not cancel.  Rule: in
+    every loop of HANKEL that updates PSI by that quotient, order 1 is excepted --
+    the loop starts at 2, or the quotient sits on the branch i /= 1 of a test on
+    the loop variable -- and PSI for order 1 is assigned from psi_0 / x and the
+    cosine (the closed form sin x / x - cos x)."""
+    import re
+    from hpstatic.fortran import FortranProgram
+    from .c10 import meson_inputs, MIE_DIR
+    files = meson_inputs(prog.root, MIE_DIR)
+    fp = FortranProgram(prog.root, files)
+    u = fp.units.get('HANKEL')
+    if u is None:
+        check.error('subroutine HANKEL not found in the mie_f sources')
+        return
+    sq = lambda t: ''.join(t.upper().split())
+    stmts = [(line, sq(t)) for line, t in u.stmts]
+    # loops (DO label var=lo,hi  ... label CONTINUE / ENDDO) and block IFs
+    loops = []          # stack of (var, lo)
+    guards = []         # stack of [cond, in_else]
+    n = 0
+    for k, (line, t) in enumerate(stmts):
+        m = re.match(r'^DO(\d+)?,?([A-Z][A-Z0-9]*)=([^,]+),', t)
+        if m:
+            loops.append((m.group(1), m.group(2), m.group(3), len(guards)))
+            continue
+        if loops and ((loops[-1][0] and u.labels.get(k) == int(loops[-1][0])) or
+                      (not loops[-1][0] and t in ('ENDDO',))):
+            loops.pop()
+            continue
+        mb = re.match(r'^IF\((.*)\)THEN$', t)
+        if mb:
+            guards.append([mb.group(1), False])
+            continue
+        if t == 'ELSE' and guards:
+            guards[-1][1] = True
+            continue
+        if t in ('ENDIF',) and guards:
+            guards.pop()
+            continue
+        m = re.match(r'^PSI=PSI/\((.*)\)$', t)
+        if m and 'XI(' in m.group(1) and loops:
+            n += 1
+            _, var, lo, gdepth = loops[-1]
+            inner = guards[gdepth:]
+            excepted = lo not in ('1', '0') or any(
+                (c.replace(' ', '') in ('%s.EQ.1' % var, '%s==1' % var) and in_else) or
+                (c in ('%s.GT.1' % var, '%s.NE.1' % var, '%s>1' % var, '%s/=1' % var,
+                       '%s.GE.2' % var, '%s>=2' % var) and not in_else)
+                for c, in_else in inner)
+            check.require(excepted, 'H13-psi-product-start',
+                          'scsmfo_min.for::HANKEL PSI quotient in DO %s=%s' % (var, lo),
+                          'order 1 is not taken as psi_0 / (1 / x + D_1)',
+                          '%s:%d' % (u.path, line),
+                          fail_detail='`%s` runs from %s = %s: for sin x ~ 1e-16 the '
+                          'divisor is the difference of two O(1) numbers and psi_1 '
+                          '(hence every psi_n) has no correct digit' % (t, var, lo))
+    check.need('PSI product loops in HANKEL', n, 1, 'H13-psi-product-start',
+               'scsmfo_min.for::HANKEL', 'psi_n is built as a running product',
+               '%s:%d' % (u.path, u.line))
 
 
 def series_exit(check, prog):
